@@ -27,7 +27,7 @@ occupancies: `extras: ["occupancy"]`):
                        tagger, the recorded `_active_cell` is the same before and after (the premise inside `Tr3`, MEASURED);
 * `fp3.yield`        — what the REAL taggers yield (`fresh_pristine`) equals `yieldCls3`: the cell taggers on the recorded occupancy they
                        name (mirror of lean/JF/Model/CellTaggers.lean), the other classes as `fpcorr2.yield_of` (multisets);
-* `fp3.self-test`    — the mirrors of `Occ.update` / `yieldCell` reproduce `JF.Footprints3.Example.pyOccTable` (values of the Lean
+* `fp3.self-test`    — the mirrors of `Occ.update` / `yieldCell` reproduce `JF.Footprints3.PyTable.pyOccTable` (values of the Lean
                        definitions by `decide`).
 
 Call `check_trace(ctx, tr, w)` per trace (w = `actcorr.wiring_of_trace`); `occupancy_jobs3(ctx)` are the jobs that record the occupancy
@@ -156,7 +156,7 @@ def yield_cell(cls, grid, s, cell_order):
     return []
 
 
-# `JF.Footprints3.Example.pyOccTable`: a 1-dimensional grid of 7 cells, one layer, cap 1, identifiers on level 1;
+# `JF.Footprints3.PyTable.pyOccTable`: a 1-dimensional grid of 7 cells, one layer, cap 1, identifiers on level 1;
 # (occupancy before, new unit (id, relevant, cell), occupancy after, yields [veto, bounding, excluded, surplus] after)
 def _mk(occ, sur, aid, ac):
     return Occ(1, {(k,): [(u,) for u in occ.get(k, [])] for k in range(7)}, {(c,): [(u,) for u in l] for c, l in sur}, None if aid is None else (aid,),
